@@ -5,3 +5,4 @@ from .base58 import b58val, alpha  # noqa
 from . import base58  # noqa
 from . import bip143  # noqa
 from . import block  # noqa
+from . import script  # noqa
